@@ -489,6 +489,48 @@ func guarded(d time.Duration, fn func()) string {
 	}
 }
 
+// tokeniseKnown replaces, in order, the exact octet runs of the long strings the value is known to contain
+// (collected from the value tree in encoding order) by their tokens; anything else stays explicit.
+func tokeniseKnown(b []byte, tree Node) []int {
+	var toks []int
+	var walk func(n Node)
+	walk = func(n Node) {
+		if a, _ := n["absent"].(bool); a {
+			return
+		}
+		if v, ok := n["v"].([]int); ok && len(v) == 1 && v[0] < 0 {
+			toks = append(toks, v[0])
+		}
+		if n["k"] == "choice" {
+			if kids, ok := n["kids"].([]Node); ok {
+				if pr, ok := n["present"].(int64); ok && pr >= 1 && int(pr) <= len(kids) {
+					walk(kids[pr-1])
+				}
+			}
+			return
+		}
+		if kids, ok := n["kids"].([]Node); ok {
+			for _, k := range kids {
+				walk(k)
+			}
+		}
+	}
+	walk(tree)
+	out := []int{}
+	pos := 0
+	for _, t := range toks {
+		run := patBytes((-t)/8, (-t)%8)
+		idx := bytes.Index(b[pos:], run)
+		if idx < 0 {
+			continue
+		}
+		out = append(out, ints(b[pos:pos+idx])...)
+		out = append(out, t)
+		pos += idx + len(run)
+	}
+	return append(out, ints(b[pos:])...)
+}
+
 func tokeniseBytes(b []byte) []int {
 	// replace long pattern runs (any pattern) by tokens, found by plain search
 	if len(b) < tokMin {
@@ -549,7 +591,7 @@ func (r *berRunner) roundTrip(c BerCase, ptr reflect.Value, params string) []byt
 		rec["enc"] = "error"
 	}
 	if rec["enc"] == "" {
-		rec["bytes"] = tokeniseBytes(out)
+		rec["bytes"] = tokeniseKnown(out, rec["node"].(Node))
 		back := reflect.New(ptr.Type().Elem())
 		var derr error
 		if e := guarded(20*time.Second, func() { derr = asn.UnmarshalWithParams(out, back.Interface(), params) }); e != "" {
